@@ -213,7 +213,7 @@ theorem readNumber_ok {s : Bytes} {n ll : Nat} (h : readNumber s = .ok (n, ll)) 
   unfold readNumber at h
   match s, h with
   | b0 :: s', h =>
-    simp only [idx_zero_cons, bind, Except.bind] at h
+    simp only [List.isEmpty_cons, Bool.false_eq_true, if_false, idx_zero_cons, bind, Except.bind] at h
     split at h
     · cases h
     · rename_i hb0
@@ -252,23 +252,20 @@ theorem readNumber_encode (n : Nat) (rest : Bytes) :
   obtain ⟨b0, t, hbt, hb0⟩ := hhead
   unfold readNumber
   rw [hbt]
-  simp only [idx, List.getElem?_cons_zero, bind, Except.bind]
+  simp only [List.isEmpty_cons, Bool.false_eq_true, if_false, idx, List.getElem?_cons_zero, bind, Except.bind]
   rw [if_neg hb0, ← hbt, List.append_assoc, List.singleton_append, hrun]
   have hv : b128Fold 0 (b128Digits (n / 128)) = n / 128 := b128Val_b128Digits (n / 128)
   rw [hv, hk.2.2.2.2.2.1]
   simp only [List.length_append, List.length_singleton]
   congr 2 <;> omega
 
-/-- `read_number` fails with `UnexpectedDER`, except on the empty string (`IndexError`) -/
-theorem readNumber_err {s : Bytes} {e : PyErr} (h : readNumber s = .error e) :
-    (s ≠ [] ∧ e = .unexpectedDER) ∨ (s = [] ∧ e = .indexError) := by
+/-- `read_number` fails only with `UnexpectedDER` (also on the empty string, since fix 23101b2) -/
+theorem readNumber_err {s : Bytes} {e : PyErr} (h : readNumber s = .error e) : e = .unexpectedDER := by
   unfold readNumber at h
   match s, h with
-  | [], h => right; cases h; exact ⟨rfl, rfl⟩
+  | [], h => cases h; rfl
   | b0 :: s', h =>
-    left
-    refine ⟨by simp, ?_⟩
-    simp only [idx, List.getElem?_cons_zero, bind, Except.bind] at h
+    simp only [List.isEmpty_cons, Bool.false_eq_true, if_false, idx, List.getElem?_cons_zero, bind, Except.bind] at h
     split at h
     · cases h; rfl
     · exact loop_err h
